@@ -29,6 +29,9 @@ theorem C15_gen_facts :
     -- exported wrapper, and that wrapper has no caller at all
     ElaVerif.Gen.C15.reorganizeChain2Callers = ["blockchain/blockchain.go:ReorganizeChain2"] ∧
     ElaVerif.Gen.C15.exportedReorganizeChain2Callers = [] ∧
+    -- the decoded block cache hands out shared pointers (the model has values): transparency needs that no
+    -- caller of GetBlock / GetDposBlockByHash writes through the returned pointer (pushBlockMsg did: fix 9ca617e4)
+    ElaVerif.Gen.C15.blockCacheEntryWriters = [] ∧
     -- eviction is decided by the length of the FIFO of hashes (not of the map): what `C15_block_race` and
     -- `C15_send_shape` rely on
     ElaVerif.Gen.C15.blockCacheEvictCond = "len(c.blockHashesCache) >= BlocksCacheSize" ∧
